@@ -115,6 +115,22 @@ type SNested struct {
 	}
 }
 
+// adjacent narrow fields: an omitempty test or a store of the wrong width shows up in the neighbour
+type SPacked struct {
+	A float32 `json:"a,omitempty"`
+	B float32 `json:"b"`
+	C int32   `json:"c,omitempty"`
+	D int32   `json:"d"`
+	E int16   `json:"e,omitempty"`
+	F int16   `json:"f"`
+	G bool    `json:"g,omitempty"`
+	H bool    `json:"h"`
+	I int16   `json:"i,omitempty"`
+	J float32 `json:"j,omitempty"`
+	K bool    `json:"k,omitempty"`
+	L int32   `json:"l,omitempty"`
+}
+
 // ---- witnesses: one feature each ----
 type WInt16 struct {
 	A int16
@@ -165,7 +181,7 @@ func staticOf[T any](name string) rtCase {
 func staticCases() []rtCase {
 	return []rtCase{
 		staticOf[SBasic]("SBasic"), staticOf[SOmit]("SOmit"), staticOf[SPtr]("SPtr"), staticOf[SColl]("SColl"),
-		staticOf[STime]("STime"), staticOf[STags]("STags"), staticOf[SEmbedded]("SEmbedded"), staticOf[SNested]("SNested"),
+		staticOf[STime]("STime"), staticOf[STags]("STags"), staticOf[SEmbedded]("SEmbedded"), staticOf[SNested]("SNested"), staticOf[SPacked]("SPacked"),
 	}
 }
 
